@@ -1090,6 +1090,18 @@ func (c *Conn) addCall(call *callReq) error {
 	return nil
 }
 
+// execOwn runs a request the driver issues for itself (a shared PREPARE, USE) under
+// the connection's own context. When that context ends the connection is closed,
+// and that is what the waiting callers are told - not that somebody cancelled: they
+// did not, and "context canceled" would keep them from trying another host.
+func (c *Conn) execOwn(req frameBuilder, tracer Tracer) (*framer, error) {
+	framer, err := c.exec(c.ctx, req, tracer)
+	if err != nil && errors.Is(err, context.Canceled) {
+		err = ErrConnectionClosed
+	}
+	return framer, err
+}
+
 func (c *Conn) exec(ctx context.Context, req frameBuilder, tracer Tracer) (*framer, error) {
 	if ctxErr := ctx.Err(); ctxErr != nil {
 		return nil, ctxErr
@@ -1323,7 +1335,7 @@ func (c *Conn) prepareStatement(ctx context.Context, stmt string, tracer Tracer)
 			// we won the race to do the load, if our context is canceled we shouldnt
 			// stop the load as other callers are waiting for it but this caller should get
 			// their context cancelled error.
-			framer, err := c.exec(c.ctx, prep, tracer)
+			framer, err := c.execOwn(prep, tracer)
 			if err != nil {
 				flight.err = err
 				c.session.stmtsLRU.remove(stmtCacheKey)
@@ -1627,7 +1639,7 @@ func (c *Conn) UseKeyspace(keyspace string) error {
 	q := &writeQueryFrame{statement: `USE "` + keyspace + `"`}
 	q.params.consistency = c.session.cons
 
-	framer, err := c.exec(c.ctx, q, nil)
+	framer, err := c.execOwn(q, nil)
 	if err != nil {
 		return err
 	}
